@@ -1319,6 +1319,7 @@ class NLDFAuxiliaryPlan(ABC):
         if alpha0 <= 0:
             raise ValueError("alpha0 must be positive")
         self.alpha0 = np.float64(alpha0)
+        self._alpha0_input = alpha0
         if lambd <= 1:
             raise ValueError("lambd must be > 1")
         self.lambd = np.float64(lambd)
@@ -1351,6 +1352,7 @@ class NLDFAuxiliaryPlan(ABC):
         if rhocut < 0 or expcut < 0:
             raise ValueError("rhocut and expcut must be nonnegative")
         self.rhocut = rhocut / nspin
+        self._rhocut_input = rhocut
         self.expcut = expcut
 
         self.alphas = None
@@ -1414,13 +1416,13 @@ class NLDFAuxiliaryPlan(ABC):
         new_kwargs = dict(
             nldf_settings=self.nldf_settings,
             nspin=self.nspin,
-            alpha0=self.alpha0,
+            alpha0=self._alpha0_input,
             lambd=self.lambd,
             nalpha=self.nalpha,
             coef_order=self.coef_order,
             alpha_formula=self.alpha_formula,
             proc_inds=self.proc_inds,
-            rhocut=self.rhocut,
+            rhocut=self._rhocut_input,
             expcut=self.expcut,
         )
         new_kwargs.update(kwargs)
